@@ -1,4 +1,4 @@
 From Coq Require Extraction ExtrOcamlBasic.
-From Verif Require Import model.RuleParser.
+From Verif Require Import model.RuleParser model.ParseRule.
 Extraction Language OCaml.
-Extraction "../ocaml/build/mC01p.ml" corr_C01p.
+Extraction "../ocaml/build/mC01p.ml" corr_C01p_all.
